@@ -41,6 +41,7 @@ type Engine struct {
 	ExtraEval      []string
 	Known          *KnownFindingsFile
 	CurProp        string
+	CurPkg         string
 	FieldDecls     []*FieldDecl
 	callees        map[*ssa.Function]map[*ssa.Function]bool
 	reachCache     map[*ssa.Function]map[string]bool
@@ -546,7 +547,7 @@ func (x *Exec) obligeKnown(env *specEnv, name, kind, pos, clause string, reach, 
 	var classes []Term
 	if x.E.Known != nil {
 		for _, f := range x.E.Known.Findings {
-			if f.Status != "known" || f.Obligation != name || (f.Property != "" && x.E.CurProp != "" && f.Property != x.E.CurProp) {
+			if f.Status != "known" || f.Obligation != name || (f.Property != "" && x.E.CurProp != "" && f.Property != x.E.CurProp) || (f.Pkg != "" && f.Pkg != x.E.CurPkg) {
 				continue
 			}
 			cls := True
